@@ -1,6 +1,7 @@
 import Iota.Driver.C14
+import Iota.Driver.C10
 
 namespace Iota.Driver
 def allOps : List (String × Handler) :=
-  C14.ops
+  C14.ops ++ C10.ops
 end Iota.Driver
